@@ -433,14 +433,28 @@ def run_check(main):
     except BaseException as ex:  # noqa: a crash of the harness is never a verdict
         import traceback
         traceback.print_exc()
-        print('INFRASTRUCTURE-FAILURE: {}: {}'.format(type(ex).__name__, ex))
-        # … but violations of the real code found BEFORE the crash stand: report them (exit 1)
-        # rather than lose them behind an exit 2
-        found = [c for c in _CHECKS if c.violations]
-        if found:
-            chk = found[0]
-            chk.assumptions.append('the harness failed after these violations had been found ({}: {}); '
-                                   'the streams after that point did not run'.format(type(ex).__name__, ex))
+        early = not [c for c in _CHECKS if c.proof.get('build_ok') is not None]
+        print('{}: {}: {}'.format('INFRASTRUCTURE-FAILURE' if early else 'HARNESS-FAILURE',
+                                  type(ex).__name__, ex))
+        # … but it is not nothing either.  On the unchanged tree the harness runs through; if it
+        # fails on a changed tree, the change made the real code do something the harness (the
+        # executable side of the tie between model and code) does not expect: the tie no longer
+        # checks.  Violations of the real code found BEFORE the failure stand and are reported;
+        # if there are none the property is "no longer shown to hold" (VIOLATION …
+        # no-failing-input-found, naming the failure), as for a proof that no longer builds.
+        # Only failures before the Lean phase has finished stay plain infrastructure failures.
+        done = [c for c in _CHECKS if c.proof.get('build_ok') is not None]
+        if done and not isinstance(ex, (KeyboardInterrupt, MemoryError)):
+            chk = done[0]
+            tail = traceback.format_exc().strip().splitlines()[-8:]
+            name = 'harness-run:' + type(ex).__name__
+            if name not in chk.broken:
+                chk.broken.append(name)
+            chk.coverage.setdefault('first_disagreements', []).append(
+                {'stream': 'harness', 'case': 'the check itself failed', 'impl': str(ex)[:300],
+                 'model': 'the harness runs through on the unchanged tree', 'traceback': tail})
+            chk.assumptions.append('the harness failed ({}: {}); the streams after that point did not '
+                                   'run'.format(type(ex).__name__, str(ex)[:200]))
             try:
                 chk.finish()
             except SystemExit:
